@@ -30,6 +30,7 @@ class WsConnA:
         self.ticket = None
         self.handler_done = False
         self.proto = []
+        self.on_frame = None
         self.connect_delivered = False
         self.disconnect_delivered = False
         self.close_reason = None
@@ -61,6 +62,9 @@ class WsConnA:
         if self.disconnect_delivered:
             # uvicorn keeps answering websocket.disconnect
             return {'type': 'websocket.disconnect', 'code': 1006}
+        if self.connect_delivered and self.first_read_clk is None:
+            self.first_read_clk = self.sim.tick()
+            self.first_read_t = self.sim.now
         ev = await self.q.get()
         if ev['type'] == 'websocket.connect':
             self.connect_delivered = True
@@ -102,6 +106,8 @@ class WsConnA:
             self.frames.append({'clk': self.sim.tick(), 't': self.sim.now,
                                 'frame': bytes(b) if b is not None else t,
                                 'lost': self.vanished})
+            if self.on_frame is not None and not self.vanished:
+                self.on_frame(self, self.frames[-1]['frame'])
         elif tp == 'websocket.close':
             if self.server_closed:
                 self.proto.append('websocket.close twice')
@@ -210,6 +216,7 @@ class SimA(SimBase):
     async def _serve(self, t, sc, body, ws):
         state = {'start': 0, 'body_done': False, 'sent_req': False}
         chunks = []
+        t.c_enter = self.tick()
         gone = asyncio.Event()
         t.gone = gone
 
@@ -289,6 +296,7 @@ class SimA(SimBase):
         finally:
             if ws is not None:
                 ws.handler_done = True
+                ws.handler_end_clk = self.tick()
                 if not ws.accepted and ws.server_closed:
                     t.status = 403      # rejected handshake
             t.finish()
@@ -348,6 +356,11 @@ class SimA(SimBase):
 
     def step(self, n=1):
         self.loop.step(n)
+
+    def after(self, dt, fn):
+        if dt <= 0:
+            return self.loop.call_soon(fn)
+        return self.loop.call_later(dt, fn)
 
     def transport_of(self, sid):
         try:
